@@ -466,7 +466,13 @@ pub fn run(params: &Params) {
     let core = issuer_core(&issuer.doc);
     let ep = endpoint_of(&core, &sid);
     if !ep.is_empty() {
-      let legacy = base64_std(ep.as_bytes()).trim_end_matches('=').to_owned();
+      // The old writer produced a `;base64` data URL of the inner text: standard base64 WITH padding (two out of three
+      // inner lengths need some). One time in four the padding is stripped, as lenient producers did.
+      let padded = base64_std(ep.as_bytes());
+      let legacy = if ctx::choose(4) == 0 { padded.trim_end_matches('=').to_owned() } else { padded };
+      if legacy.ends_with('=') {
+        ctx::stat("probe.legacy_endpoint_with_padding");
+      }
       let mut v = serde_json::to_value(&core).unwrap();
       if let Some(a) = v.get_mut("service").and_then(|s| s.as_array_mut()) {
         for s in a.iter_mut() {
